@@ -558,47 +558,67 @@ Proof. intros. now apply retr_exact. Qed.
 (* ------------------------------------------------------------------------------------------ *)
 (* the restart offset across the commands the client sends                                     *)
 
-Definition exempt_ok (exempt : list string) : Prop :=
+Definition exempt_ok (table : list (string * string)) (exempt : list string) : Prop :=
   mem_s "type" exempt = false /\ mem_s "stor" exempt = true /\ mem_s "appe" exempt = true
-  /\ mem_s "retr" exempt = true.
+  /\ mem_s "retr" exempt = true
+  /\ assoc_s "type" table <> None /\ assoc_s "rest" table <> None.
 
-Definition check_exempt (exempt : list string) : bool :=
-  negb (mem_s "type" exempt) && mem_s "stor" exempt && mem_s "appe" exempt && mem_s "retr" exempt.
+Definition check_exempt (table : list (string * string)) (exempt : list string) : bool :=
+  negb (mem_s "type" exempt) && mem_s "stor" exempt && mem_s "appe" exempt && mem_s "retr" exempt
+  && match assoc_s "type" table with Some _ => true | None => false end
+  && match assoc_s "rest" table with Some _ => true | None => false end.
 
-Lemma check_exempt_sound : forall e, check_exempt e = true -> exempt_ok e.
+Lemma check_exempt_sound : forall t e, check_exempt t e = true -> exempt_ok t e.
 Proof.
-  intros e H. unfold check_exempt in H. rewrite !andb_true_iff, negb_true_iff in H.
-  unfold exempt_ok. tauto.
+  intros t e H. unfold check_exempt in H. rewrite !andb_true_iff, negb_true_iff in H.
+  destruct H as [[[[[H1 H2] H3] H4] H5] H6]. unfold exempt_ok.
+  repeat split; try assumption.
+  - destruct (assoc_s "type" t); [discriminate|discriminate].
+  - destruct (assoc_s "rest" t); [discriminate|discriminate].
 Qed.
 
 Definition transfer_verb (v : string) : Prop := v = "stor" \/ v = "appe" \/ v = "retr".
 
 (* REST o issued by get_stream reaches the transfer command, whatever happened before *)
-Theorem rest_survives : forall exempt hist off0 passive verb off,
-  exempt_ok exempt -> transfer_verb verb ->
-  offset_after exempt (hist ++ get_stream_cmds passive verb off) off0 = off.
+Theorem rest_survives : forall table exempt hist off0 passive verb off,
+  exempt_ok table exempt -> transfer_verb verb ->
+  offset_after table exempt (hist ++ get_stream_cmds passive verb off) off0 = off.
 Proof.
-  intros exempt hist off0 passive verb off [Ht [Hs [Ha Hr]]] Hv.
+  intros table exempt hist off0 passive verb off [Ht [Hs [Ha [Hr [Htt Htr]]]]] Hv.
   unfold offset_after, get_stream_cmds. rewrite fold_left_app.
-  set (o1 := fold_left (disp_step exempt) hist off0).
+  set (o1 := fold_left (disp_step table exempt) hist off0).
   assert (Hverb : mem_s verb exempt = true) by (destruct Hv as [->|[->| ->]]; assumption).
-  cbn [app fold_left disp_step]. rewrite Ht.
-  assert (Hp : (if mem_s passive exempt then 0 else 0) = 0) by (destruct (mem_s passive exempt); reflexivity).
+  cbn [app fold_left disp_step].
+  destruct (assoc_s "type" table) as [tt|]; [|congruence]. rewrite Ht.
+  assert (Hp : match assoc_s passive table with
+               | Some _ => if mem_s passive exempt then 0 else 0
+               | None => 0
+               end = 0).
+  { destruct (assoc_s passive table); [destruct (mem_s passive exempt)|]; reflexivity. }
   rewrite Hp.
-  destruct off as [|off']; cbn [Nat.eqb app fold_left disp_step]; now rewrite Hverb.
+  destruct (assoc_s "rest" table) as [tr|] eqn:Erest; [|congruence].
+  destruct off as [|off']; cbn [Nat.eqb app fold_left disp_step]; rewrite ?Erest, Hverb;
+    destruct (assoc_s verb table); reflexivity.
 Qed.
 
 (* in particular a plain transfer (offset 0) issued through the client after a completed
    REST + transfer pair is served from offset 0 *)
-Corollary plain_after_restart_pair : forall exempt passive1 verb1 off1 passive2 verb2,
-  exempt_ok exempt -> transfer_verb verb1 -> transfer_verb verb2 ->
-  offset_after exempt (get_stream_cmds passive1 verb1 off1 ++ get_stream_cmds passive2 verb2 0) 0 = 0.
+Corollary plain_after_restart_pair : forall table exempt passive1 verb1 off1 passive2 verb2,
+  exempt_ok table exempt -> transfer_verb verb1 -> transfer_verb verb2 ->
+  offset_after table exempt (get_stream_cmds passive1 verb1 off1 ++ get_stream_cmds passive2 verb2 0) 0 = 0.
 Proof. intros. now apply rest_survives. Qed.
 
 (* F14 (belongs to C05, recorded there): without a non-exempt command in between the offset is
    re-used -- stated here only to delimit what rest_survives does NOT say *)
 Lemma offset_reused_without_reset :
-  offset_after ["retr"; "stor"; "appe"] [CRest 4; CVerb "retr"; CVerb "retr"] 0 = 4.
+  offset_after [("rest", "rest"); ("retr", "retr")] ["retr"; "stor"; "appe"]
+               [CRest 4; CVerb "retr"; CVerb "retr"] 0 = 4.
+Proof. reflexivity. Qed.
+
+(* a verb that is not in the table is answered 502 and does not touch the offset *)
+Lemma unknown_verb_keeps_offset :
+  offset_after [("rest", "rest"); ("retr", "retr")] ["retr"; "stor"; "appe"]
+               [CRest 4; CVerb "noop"; CVerb "retr"] 0 = 4.
 Proof. reflexivity. Qed.
 
 (* ------------------------------------------------------------------------------------------ *)
@@ -621,11 +641,11 @@ Theorem check_dispatch_facts_sound : forall ws hs d,
               /\ retr_table_ok (w_open_modes rw) /\ w_reply_after_ctx rw = true
               /\ w_ctx rw = [["file_in"; "stream"]])
   /\ (exists ap, find_handler "appe" hs = Some ap /\ h_delegate ap = Some "stor")
-  /\ exempt_ok (d_reset_exempt d)
+  /\ exempt_ok (d_table d) (d_reset_exempt d)
   /\ d_reset_exempt d = ["retr"; "stor"; "appe"].
 Proof.
   intros ws hs d H. unfold check_dispatch_facts in H. rewrite !andb_true_iff in H.
-  destruct H as [[[[[[[Hs Hr] Ha] _] _] He] _] _].
+  destruct H as [[[[[[[Hs Hr] Ha] _] _] He] Htab] _].
   assert (W : forall name modes ctx, check_worker ws name modes ctx = true ->
               exists w, find_worker name ws = Some w /\ w_open_modes w = modes
                         /\ w_reply_after_ctx w = true /\ w_ctx w = [ctx]).
@@ -643,7 +663,11 @@ Proof.
     split; [exact Hf|split; [exact expected_retr_table_ok|split; assumption]].
   - destruct (find_handler "appe" hs) as [h|]; [|discriminate]. exists h. split; [reflexivity|].
     destruct (h_delegate h) as [t|]; [|discriminate]. apply String.eqb_eq in Ha. now subst.
-  - rewrite He. apply check_exempt_sound. reflexivity.
+  - rewrite forallb_forall in Htab.
+    assert (Hin : forall v, In v ["stor"; "appe"; "retr"; "rest"; "type"; "pasv"; "epsv"] ->
+                  assoc_s v (d_table d) <> None).
+    { intros v Hv. specialize (Htab v Hv). destruct (assoc_s v (d_table d)); [discriminate|discriminate]. }
+    rewrite He. unfold exempt_ok. repeat split; try reflexivity; apply Hin; cbn; tauto.
   - exact He.
 Qed.
 
@@ -723,7 +747,7 @@ Section Checked.
 
   Theorem rest_survives_checked : forall hist off0 passive verb off,
     transfer_verb verb ->
-    offset_after (d_reset_exempt d) (hist ++ get_stream_cmds passive verb off) off0 = off.
+    offset_after (d_table d) (d_reset_exempt d) (hist ++ get_stream_cmds passive verb off) off0 = off.
   Proof.
     intros. destruct (check_dispatch_facts_sound _ _ _ Hdisp) as [_ [_ [_ [He _]]]].
     now apply rest_survives.
